@@ -360,6 +360,9 @@ func (c *Ctx) applyContract(s *State, in ssa.Instruction, fc *FuncContract, call
 		if len(props) == 0 {
 			props = fc.Props
 		}
+		if len(props) == 0 || fc.Assumed {
+			props = c.props // an assumed callee's precondition is the caller's obligation
+		}
 		c.oblige(s, "requires", name, g, pos, "precondition of "+fc.Key+": "+rq.Src, props)
 		s.assume(g)
 	}
